@@ -183,6 +183,8 @@ type flowResult struct {
 	Eval     int
 	Done     int // histories completed
 	Ops      []opLine
+	factsAt  map[int][]*a.Expr
+	ck       *flowChecked
 }
 
 type opLine struct{ op, impl string }
@@ -290,6 +292,7 @@ func flowRunProgram(fr *flowFront, rd *hlib.Rand, res *flowResult, coroutine boo
 	in := newFlowInterp(ck)
 	in.closeLine = flowBraces(src)
 	in.factsAt = map[int][]*a.Expr{}
+	res.factsAt, res.ck = in.factsAt, ck
 	for _, line := range flowBodyLines(src) {
 		facts, ok := fr.probe(src, line)
 		if !ok {
@@ -355,7 +358,7 @@ func flowCorpus() (names []string, srcs []string) {
 	return
 }
 
-func flowPart(r *hlib.Run) {
+func flowPart(r *hlib.Run, l *loaded) {
 	nProg, nHist := 160, 24
 	if r.Thorough {
 		nProg, nHist = 4000, 48
@@ -400,11 +403,17 @@ func flowPart(r *hlib.Run) {
 						res.Origin, res.Src = cnames[i], csrcs[i]
 						coroutine = strings.Contains(res.Src, "func thing.run?")
 						flowRunProgram(fr, rd, res, coroutine, 4*nHist)
+						flowCorrOps(fr, l, res, nil)
 					} else {
-						p := flowGenerate(rd.Fork(), fr, res.Stats)
+						scalar := (i-len(csrcs))%2 == 0
+						p, rej := flowGenerate(rd.Fork(), fr, res.Stats, l, scalar)
 						res.Origin, res.Src = "generated", p.render()
+						if scalar {
+							res.Origin = "generated-scalar"
+						}
 						coroutine = p.Coroutine
 						flowRunProgram(fr, rd, res, coroutine, nHist)
+						flowCorrOps(fr, l, res, rej)
 					}
 				}()
 			}
@@ -446,4 +455,83 @@ func flowPart(r *hlib.Run) {
 	r.Extra("flow_programs_accepted", accepted)
 	r.Extra("flow_probe_points", points)
 	r.Extra("flow_facts_probed", factsN)
+}
+
+
+// flowCorrOps: the correspondence ops with the Lean model for one program: for every
+// function whose body lies in the model's fragment, `case flow <body>` (the model must
+// accept it too and count the same points) and, for every probed point, `pt k` (the
+// model's situation there must be the real checker's, fact by fact, in order); for the
+// candidate programs that the real bounds checker rejected during generation, the
+// model must reject the `run` body as well.
+func flowCorrOps(fr *flowFront, l *loaded, res *flowResult, rejected []string) {
+	emit := func(ck *flowChecked, src string, accepted bool, factsAt map[int][]*a.Expr, only string) {
+		funcs := map[t.ID]*a.Func{}
+		for _, n := range ck.file.TopLevelDecls() {
+			if n.Kind() == a.KFunc {
+				funcs[n.AsFunc().FuncName()] = n.AsFunc()
+			}
+		}
+		braces := flowBraces(src)
+		for _, n := range ck.file.TopLevelDecls() {
+			if n.Kind() != a.KFunc {
+				continue
+			}
+			fn := n.AsFunc()
+			name := fn.FuncName().Str(ck.tm)
+			if only != "" && name != only {
+				continue
+			}
+			z := &flowSer{tm: ck.tm, l: l, funcs: funcs, braces: braces}
+			body := z.block(fn.Body())
+			if z.bad != "" {
+				res.Stats["corr:func-outside-fragment"]++
+				res.Stats["corr:outside:"+strings.SplitN(z.bad, " ", 2)[0]]++
+				continue
+			}
+			if !accepted {
+				res.Stats["corr:reject-ops"]++
+				res.Ops = append(res.Ops, opLine{"case flow " + body, "reject"})
+				continue
+			}
+			_, fline := fn.AsNode().AsRaw().FilenameLine()
+			open := int(fline)
+			for ; open < int(fline)+8; open++ {
+				if _, ok := braces[open]; ok {
+					break
+				}
+			}
+			pts := z.points(fn.Body(), braces[open])
+			res.Stats["corr:flow-ops"]++
+			res.Ops = append(res.Ops, opLine{"case flow " + body, fmt.Sprintf("accept %d", len(pts))})
+			for k, line := range pts {
+				if line == 0 {
+					continue
+				}
+				facts, ok := factsAt[line]
+				if !ok {
+					continue
+				}
+				fstr, ok := z.facts(facts)
+				if !ok {
+					res.Stats["corr:point-facts-outside-fragment"]++
+					continue
+				}
+				res.Stats["corr:point-ops"]++
+				res.Ops = append(res.Ops, opLine{fmt.Sprintf("pt %d", k), fstr})
+			}
+		}
+	}
+	if res.Accepted && res.ck != nil {
+		emit(res.ck, res.Src, true, res.factsAt, "")
+	}
+	for _, src := range rejected {
+		// the rejected candidate still passes the type checker: parse + type-check only is
+		// not exposed, so serialise from the AST of the failed run (types are set by then)
+		ck, err := fr.checkKeepAST(src)
+		if err == nil || ck == nil {
+			continue
+		}
+		emit(ck, src, false, nil, "run")
+	}
 }
